@@ -2,7 +2,7 @@
    PARTIAL in one respect: what the real notify backends do with a registered path (inotify etc.) is outside
    the model; the recording watcher of the harness implements notify's watch/unwatch contract. *)
 From Coq Require Import List NArith Bool String.
-From WX Require Import Fs.FsWorker Fs.FsProofs Fs.ConfigWatch Fs.ConfigRace Gen.Changeable_gen Fs.Changeable.
+From WX Require Import Fs.FsWorker Fs.FsProofs Fs.ConfigWatch Fs.ConfigRace Gen.Changeable_gen Fs.Changeable Fs.ChangeableProofs.
 Import ListNotations.
 Open Scope N_scope.
 
